@@ -3,7 +3,7 @@ CONSTANTS
   Msgs = {"absent", "empty", "ascii", "utf8", "pct"}
   Pfxs = {"std", "other", "none"}
   Types = {"t1", "t2"}
-  Vals = {0, 1}
+  Vals = {0, 1, 3}
   MaxDetails = 2
   Routes = {"connect"}
 INIT Init
